@@ -428,7 +428,20 @@ def orc_c12(ctx, op, req, impl, model, spec):
     if not impl.startswith("ok"):
         return None
     if op == "rel":
-        d = dict(kv.split("=") for kv in impl[3:].split(" "))
+        d = dict(kv.split("=", 1) for kv in impl[3:].split(" "))
+        if "xi" in d and "yi" in d:
+            # the order the property fixes: language, then script, region, variants, field by field, absent first
+            def key(r):
+                p = parse_li_render(r)
+                opt = lambda v, none: (0,) if v == none else (1, unesc(v))
+                vs = tuple(unesc(v) for v in p["v"].split(",")) if p["v"] else None
+                return (opt(p["l"], "und"), opt(p["s"], "~"), opt(p["r"], "~"), (0,) if vs is None else (1, vs))
+            kx, ky = key(d["xi"]), key(d["yi"])
+            want = "lt" if kx < ky else ("gt" if kx > ky else "eq")
+            if d["licmp"] != want:
+                return "LanguageIdentifier ordering is %s, field-by-field comparison (absent first) gives %s" % (d["licmp"], want)
+            if want != "eq" and d["cmp"] != want:
+                return "Locale ordering is %s although the language identifiers compare %s" % (d["cmp"], want)
         if (d["eq"] == "1") != (d["se"] == "1"):
             return "x == y is %s but string equality is %s" % (d["eq"], d["se"])
         if d["eq"] == "1" and (d["he"] != "1" or d["cmp"] != "eq"):
@@ -555,7 +568,16 @@ def layout_data():
 
 
 def orc_layout(ctx, op, req, impl, model, spec):
-    if op != "dir" or not impl.startswith("ok"):
+    if op not in ("dir", "locdir") or not impl.startswith("ok"):
+        return None
+    if spec and spec.startswith("must ") and impl[3:] != spec[5:]:
+        try:
+            name = R.unhex(req.split(" ")[1]).decode("ascii", "replace")
+        except Exception:
+            name = "?"
+        return ("character_direction(%s) = %s; by the CLDR layout data it must be %s (a script CLDR lists decides on its own; "
+                "no listed script and a language CLDR never lists right-to-left is left-to-right)" % (name, impl[3:], spec[5:]))
+    if op != "dir":
         return None
     names, langdirs = layout_data()
     try:
@@ -753,7 +775,7 @@ PROPS = {
     "C14": Prop("C14", [("layoutnames", None)] + S(["triples"], "dir"), {"dir", "locdir"}, proj_full, orc_c14, design_ref="4/C14",
                 configs=[("likely", ALL_FEATURES), ("nolikely", ("macros", "serde"))]),
     "C16": Prop("C16", [("macros", None)], {"mac"}, proj_c16, orc_c16, design_ref="4/C16"),
-    "C18": Prop("C18", [("layoutnames", None), ("tablemisc", None)] + S(["triples"], "max"), {"max", "dir", "cldrversion"}, proj_full, orc_c18,
+    "C18": Prop("C18", [("layoutnames", None), ("tablemisc", None)] + S(["triples"], "max,dir"), {"max", "dir", "cldrversion"}, proj_full, orc_c18,
                 design_ref="4/C18"),
     "C19": Prop("C19", [("serde", None)], {"serto", "serfrom"}, proj_c19, orc_c19, design_ref="4/C19"),
     "C20": Prop("C20", S(["tokens"], "loc") + S(["wf", "near"], "li,loc,lican,loccan,conv,liparts,locparts") + S(["subtag"], "lang,script,region,variant")
@@ -887,8 +909,10 @@ def judge(cfg, req, impl, mo, ctx):
     op = req.split(" ", 1)[0]
     model, spec = split_model(mo)
     if op in ("dir", "locdir") and spec is not None:
-        # the model answers for both builds: `<with likelysubtags>\t<without>`
-        model, spec = (model if ctx.get("likely", True) else spec), None
+        # the model answers for both builds, then the clause oracle: `<with likelysubtags>\t<without>\t<must DIR | free>`
+        cols = mo.split("\t")
+        model = cols[0] if ctx.get("likely", True) else cols[1]
+        spec = cols[2] if len(cols) > 2 else None
     if cfg.ops is not None and op not in cfg.ops:
         return False, None
     dis = False
